@@ -167,8 +167,14 @@ class Episode:
                 tr["ev"].append(_event(ev="Act" if acted else "Idle", t=_clip(h.timestep), action=h.action, node=node, app=app))
             elif kind == "prob":
                 ch = _last_choice.get(id(ag.action_manager), -1)
+                declared = getattr(getattr(ag.config, "action_space", None), "action_map", None) or {}
+                ent = declared.get(ch)
                 amap = ag.action_manager.action_map
-                cons = ch in amap and amap[ch][0] == h.action and dict(amap[ch][1]) == dict(par)
+                if ent is not None:
+                    # the action DECLARED under the chosen key in the scenario (not the action manager's own table)
+                    cons = str(ent.action) == h.action and dict(ent.options) == dict(par)
+                else:
+                    cons = ch in amap and amap[ch][0] == h.action and dict(amap[ch][1]) == dict(par)
                 tr["ev"].append(_event(ev="Choose", t=_clip(h.timestep), action=h.action, node=node, app=app, choice=ch, consistent=bool(cons)))
             else:
                 if acted and h.response.status != "success":
@@ -222,7 +228,7 @@ def prob_def(ref: str, table: List[Tuple[int, float]], host: str) -> Dict[str, A
     n = len(table)
     return {"ref": ref, "team": "GREEN", "type": "probabilistic-agent",
             "agent_settings": {"action_probabilities": {i: p for i, p in table}},
-            "action_space": {"action_map": {i: copy.deepcopy(acts[i]) for i in range(n)}}}
+            "action_space": {"action_map": {i: copy.deepcopy(acts[i]) for i, _ in table}}}  # (keys in the table's order)
 
 
 def random_def(ref: str, host: str) -> Dict[str, Any]:
